@@ -9,6 +9,7 @@ TARGETS = [
     "verde.chain:Chain.fit",
     "verde.chain:Chain.predict",
     "contracts.compose_c06:chain_identity",
+    "contracts.compose_c06:chain_filter",
     "verde.vector:Vector.fit",
     "verde.vector:Vector.predict",
 ]
